@@ -55,7 +55,13 @@ Core Lean only.
 -/
 namespace Dawn.Loader
 
+/-- A module. Two modules are the same iff their *full labels* are the same — kind, project, package and file name: the
+registry `proj.modules` is indexed by `label.String()` (`moduleKey`, compared with the source by `Dawn/Ties/Loader.lean`).
+`//lib:defs.dawn` of the project itself and `dep//lib:defs.dawn` of a required project are different modules. -/
 abbrev Mod := Nat
+
+/-- the expression(s) by which `Project.loadModule` indexes the registry (`L` = the label parameter) -/
+def moduleKey : List String := ["L.String()"]
 abbrev Tid := Nat
 
 inductive Version where
